@@ -122,12 +122,14 @@ type Endpoint struct {
 	writesCalled int
 	readsParked  int
 
-	flow      *Flow
-	sackSeqs  []uint32 // sequence numbers of probes the SACK target has received, in order
-	lastRecvd uint32
-	Conn      *acceptedConn
-	lis       *lisState
-	w         *World
+	flow       *Flow
+	sackSeqs   []uint32 // sequence numbers of probes the SACK target has received, in order
+	localPort  uint16   // source port of the first TCP/UDP probe (kernel-chosen)
+	localProto uint8
+	lastRecvd  uint32
+	Conn       *acceptedConn
+	lis        *lisState
+	w          *World
 }
 
 type simSource struct {
@@ -441,6 +443,20 @@ func (ep *Endpoint) performWrite(w *World, o *op, now time.Duration) {
 	if ip != nil {
 		pr.IP = ip
 		pr.L4 = codec.DecodeL4(ip)
+	}
+	if pr.IP != nil && pr.L4 != nil && (pr.IP.Proto == codec.ProtoTCP || pr.IP.Proto == codec.ProtoUDP) && ep.localPort == 0 {
+		// The kernel chooses local ports. Two endpoints alive at once never share one, but it may hand
+		// the port of an endpoint that has gone to a later endpoint of the same run; a late reply to
+		// the first then passes the second one's tuple filter - or not, depending on the kernel's
+		// choice. Such an execution is not a function of the scenario: the worker repeats it.
+		ep.localPort = pr.L4.SrcPort
+		for _, e2 := range w.Eps {
+			if e2 != ep && e2.localPort == ep.localPort && e2.localProto == pr.IP.Proto {
+				w.PortReused = true
+				w.stat("harness.kernel-port-reused")
+			}
+		}
+		ep.localProto = pr.IP.Proto
 	}
 	if o.fault != nil && (o.fault.Class == "fatal" || o.fault.Class == "slowfatal") {
 		pr.Failed = true
